@@ -108,7 +108,8 @@ impl OutputFormat for TundraDraw {
                     result.push(ch as u8);
                     if write_foreground {
                         let mut fg = cur_attr.get_foreground();
-                        if cur_attr.is_bold() {
+                        // bold only brightens the eight dark colours (as the renderer shows it)
+                        if cur_attr.is_bold() && fg < 8 {
                             fg += 8;
                         }
                         colors.insert(fg);
